@@ -583,6 +583,10 @@ func (s *Session) hostInfoFromMap(row map[string]interface{}, host *HostInfo) (*
 		// Not sure what the port field will be called until the JIRA issue is complete
 	}
 
+	if addr, _ := host.connectAddressLocked(); !validIpAddr(addr) {
+		return nil, fmt.Errorf("no valid connect address for host: %v", host)
+	}
+
 	ip, port := s.cfg.translateAddressPort(host.ConnectAddress(), host.port)
 	host.connectAddress = ip
 	host.port = port
